@@ -135,7 +135,7 @@ def main(argv):
         pinfo = props.PROPERTIES[pid]
         gids = list(pinfo['groups'])
     # dependency closure: groups establishing contracts assumed by summaries
-    changed = True
+    changed = not os.environ.get('PYVC_NOCLOSURE')
     while changed:
         changed = False
         for gid in list(gids):
